@@ -241,8 +241,14 @@ def run(run):
             raise T.AnchorMissing("no match over %s in %s" % (adt_suffix, fn["path"]))
         # the match with most arms over this adt (bytesize has nested matches)
         m = max(ms, key=lambda m: len(m["arms"]))
-        sy = S.Sym(F).scan(fn["body"])
-        # evaluate the enclosing function once so that lets before the match are known
+        # each arm is evaluated FOR its variant: the dispatched-on variable is bound to the constant, so tests on it inside a
+        # shared arm or inside a private helper the arm delegates to (inlined) are folded away; guard clauses and early
+        # returns are normalised into an if/else tree of values
+        sy = S.Sym(F, fold=True, inline_local=2).scan(fn["body"])
+        scr = T.peel(m["e"])
+        scr_id = scr["id"] if scr.get("k") in ("Var", "Upvar") else None
+        param_ids = {b[0] for p_ in fn["params"] if p_.get("p") for b in T.pat_bindings(p_["p"])}
+        scr_adt = (F.ty(scr) or "").replace("&", "").strip()
         env = {}
         tab = {}
         armtab = variant_arm_table(m, variants)
@@ -251,7 +257,15 @@ def run(run):
                 tab[v] = None
                 continue
             e2 = dict(env)
-            tab[v] = (sy.ev(arm["b"], e2), arm)
+            if scr_id is not None:
+                e2[scr_id] = ("adt", scr_adt, v, ())
+            if scr_id in param_ids:
+                # the dispatched-on variable is a parameter: the WHOLE body is evaluated for this variant, so code shared by
+                # the arms before or after the match (guards, a common tail) is part of the arm's term
+                whole = S.flow_norm(sy.ev(fn["body"], e2))
+                tab[v] = (S._unret_tree(whole), arm)
+            else:
+                tab[v] = (S._unret_tree(S.flow_norm(sy.ev(arm["b"], e2))), arm)
         return tab, m
 
     # ------------------------------------------------------------------ R1
@@ -465,10 +479,11 @@ def run(run):
     def r3():
         for name, argn, wrule in (("bin_op", 3, "bin"), ("un_op", 2, "un"), ("cast", 3, "cast"), ("subpiece", 3, "subpiece")):
             fn = F.fn(name, adt="BitvectorDomain", trait="RegisterDomain")
-            sy = S.Sym(F)
-            term = sy.term(fn["body"])
+            sy = S.Sym(F, fold=True)
+            term = S._unret_tree(S.flow_norm(sy.term(fn["body"])))
             site = F.loc(fn["body"])
             n_top = n_val = 0
+            unknown = []
 
             def visit(t, in_err, opnames=None):
                 nonlocal n_top, n_val
@@ -513,10 +528,14 @@ def run(run):
                     return
                 if t == ("tuple", ()):
                     return
+                unknown.append(t)
                 run.undecided("R3", "%s|leaf-shape" % name, "unrecognised result leaf %s" % fmt(t), site)
 
             visit(term, False)
-            run.check("R3", "%s|has-top-and-value" % name, n_top >= 1 and n_val >= 1, "expected both Top and Value results (top=%d value=%d)" % (n_top, n_val), site)
+            if unknown and not (n_top >= 1 and n_val >= 1):
+                run.undecided("R3", "%s|has-top-and-value" % name, "result leaves not recognised (top=%d value=%d)" % (n_top, n_val), site)
+            else:
+                run.check("R3", "%s|has-top-and-value" % name, n_top >= 1 and n_val >= 1, "expected both Top and Value results (top=%d value=%d)" % (n_top, n_val), site)
             # the concrete call: operand order
             cs = [x for x in S.subterms(term) if is_call(x, name) and "BitvectorExtended" in x[3]]
             if not cs:
